@@ -149,6 +149,12 @@ def stage(ctx, st, n, length, predicates):
     failures = []
     for c, obs in zip(cases, impl):
         for i, x in enumerate(obs):
+            tw = x.pop("twin", None)
+            if tw:
+                failures.append(("a linked %s dimension converts positions differently from a dimension holding the same values itself" % tw
+                                 if not tw.startswith("raise") else "position conversion on a linked dimension raised " + tw,
+                                 {"init": c["init"], "ops": c["ops"][:i + 1]}, {}))
+                break
             if not x.pop("objects_agree", True):
                 failures.append(("two Python objects of the same dimension / array answer differently", {"init": c["init"], "ops": c["ops"][:i + 1]}, {}))
                 break
